@@ -729,7 +729,7 @@ class CSSSerializer:
             for item in rule.seq:
                 type_, val = item.type, item.value
                 # PRE
-                if '}' == val:
+                if 'CHAR' == type_ and '}' == val:
                     # close last open item on stack
                     stackblock = stacks.pop().value()
                     if stackblock:
@@ -746,7 +746,7 @@ class CSSSerializer:
                     out.append(val, type_)
 
                 # POST
-                if '{' == val:
+                if 'CHAR' == type_ and '{' == val:
                     # new stack level
                     stacks.append(Out(self))
 
